@@ -232,10 +232,19 @@ Fixpoint rows_agree (bs : list binding) (m o : list row) : bool :=
   | x :: m', y :: o' => row_agree bs x y && rows_agree bs m' o'
   | _, _ => false
   end.
+(* Multiset comparisons are made where the order of the rows before a sort is not determined (several clauses, more
+   than 12 rows): there the REPRESENTATIVE of a group of equal values is not determined either, so two cells also agree
+   when they hold the same value in another rendering (-0 / 0, one instant written in two zones). *)
+Definition row_agree_val (bs : list binding) (m o : row) : bool :=
+  forallb (fun b => match rget m b, rget o b with
+                    | Some x, Some y => cell_agree x y || cell_val_eqb x y
+                    | None, None => true
+                    | _, _ => false
+                    end) bs.
 Fixpoint remove_agree (bs : list binding) (r : row) (l : list row) : option (list row) :=
   match l with
   | [] => None
-  | x :: t => if row_agree bs r x then Some t else option_map (cons x) (remove_agree bs r t)
+  | x :: t => if row_agree_val bs r x then Some t else option_map (cons x) (remove_agree bs r t)
   end.
 Fixpoint multiset_agree (bs : list binding) (m o : list row) : bool :=
   match m with
